@@ -102,13 +102,14 @@ EXTRA = {
  "C07": " Calls one second and one minute apart (continuity and the aberration identity on consecutive calls).",
  "C08": " Every date form with and without utc / leap_seconds keywords.",
  "C09": " Close approaches down to 0.002 AU; histories of ONE Minor and ONE Epoch re-used through set() (all sequences to depth 3 / 4 over 9 operations, two-body oracle after each step); one Epoch re-set between (date, body) planet queries.",
- "C10": " API histories: all sequences (depth 3 / 4) over 10 operations of the leap-second API, the visible history (58 values) compared with the IERS list after each step; overrides with and without utc=True.",
+ "C10": " Thorough: independent TLA+ model (models/LeapSeconds.tla) enumerated by TLC, all 1 812 dumped states replayed. API histories: all sequences (depth 3 / 4) over 10 operations of the leap-second API, the visible history (58 values) compared with the IERS list after each step; overrides with and without utc=True.",
  "C11": " Call sequences: each (e, M) preceded by a call 6e-8..1e-4 degree away.",
  "C12": " Histories incl. the caller overwriting the lists it lent to the object (depth 3).",
  "C13": " Isolated spot queries over the whole range (240 / 1 200 per variant); one Epoch moved by set() through all ordered pairs (triples) of 7 dates per variant.",
  "C14": " Rise/set decision on a 0.25 (0.05) degree declination grid through both 'never crosses' thresholds x 10 latitudes x 6 standard altitudes.",
  "C15": " Every year end -2000..3998 x 10 finder/target pairs x 10 query offsets from 1.5 d down to 1e-6 d around 1 January 0h; one Epoch moved by set() between queries.",
  "C16": " First instant and 1e-8 day before the end of every civil day through Epoch(jde).dow(); Epoch object histories (shared with C02).",
+ "C19": " Thorough: independent TLA+ model of the tabular Islamic calendar (models/Hijri.tla, 30-year cycle table) enumerated by TLC over six 40-year windows, all 85 049 dumped states replayed.",
  "C17": " Input forms incl. re-used objects, a copy whose source is re-loaded, and lists overwritten by the caller, for linear, quadratic and general fits.",
  "C18": " Histories of ONE Earth object set() through all sequences of 2-3 (4) of the 5 ellipsoids, 26 views compared with a fresh object.",
  "C20": " Further clauses: reused_arguments (caller changes an argument object in place between two calls), near_arguments (previous call with almost the same arguments), dense_domains (43 single-parameter sweeps on arithmetic grids with fractional steps, 95 313 calls), object_reset (construct / set histories of 4 classes against fresh objects), probes whose documented ValueError must be raised.",
